@@ -37,24 +37,30 @@ Theorem c04_only_200 : forall d c b ens init, creds_wf c ->
 Proof. exact only_200. Qed.
 Print Assumptions c04_only_200.
 
-Theorem c04_login_never_direct_ok : forall tls line, creds_wf (login_creds tls line).
-Proof. exact login_creds_wf. Qed.
-Print Assumptions c04_login_never_direct_ok.
-
-Theorem c04_authplain_never_direct_ok : forall tls data, creds_wf (authplain_creds tls data).
-Proof. exact authplain_creds_wf. Qed.
-Print Assumptions c04_authplain_never_direct_ok.
+(** every entry point (LOGIN line, AUTHENTICATE PLAIN data; authenticated or
+    not; TLS or not) yields credentials or a non-OK answer, never a direct OK *)
+Theorem c04_entry_never_direct_ok : forall au e, creds_wf (entry_creds au e).
+Proof. exact entry_creds_wf. Qed.
+Print Assumptions c04_entry_never_direct_ok.
 
 (** (e) without TLS nothing reaches the backend and nothing is granted *)
-Theorem c04_no_tls_login : forall d line b ens init,
-  let r := run_creds d (login_creds false line) b ens init in sent r = [] /\ answer r <> R_OK.
-Proof. exact no_tls_no_request_login. Qed.
-Print Assumptions c04_no_tls_login.
+Theorem c04_no_tls_no_request : forall d e b ens init au,
+  (match e with E_login tls _ => tls | E_authplain tls _ => tls end) = false ->
+  let r := run_creds d (entry_creds au e) b ens init in sent r = [] /\ answer r <> R_OK.
+Proof. exact no_tls_no_request. Qed.
+Print Assumptions c04_no_tls_no_request.
 
-Theorem c04_no_tls_authplain : forall d data b ens init,
-  let r := run_creds d (authplain_creds false data) b ens init in sent r = [] /\ answer r <> R_OK.
-Proof. exact no_tls_no_request_authplain. Qed.
-Print Assumptions c04_no_tls_authplain.
+(** on an authenticated session LOGIN / AUTHENTICATE never consult the backend
+    again and never re-bind the session (raven commit 473838b) *)
+Theorem c04_authed_no_request : forall d e b ens init,
+  let r := run_creds d (entry_creds true e) b ens init in sent r = [] /\ answer r <> R_OK.
+Proof. exact authed_no_request. Qed.
+Print Assumptions c04_authed_no_request.
+
+Theorem c04_session_no_rebind : forall (l : list attempt) (s : sess),
+  authed s = true -> fold_left sess_step l s = s.
+Proof. exact session_no_rebind. Qed.
+Print Assumptions c04_session_no_rebind.
 
 (** the property for one attempt: all default domains, user names, passwords
     (all octets) outside the finding classes, all backend outcomes *)
@@ -64,23 +70,23 @@ Theorem c04_imap_attempt : forall d u p b ens init,
 Proof. exact imap_attempt_spec. Qed.
 Print Assumptions c04_imap_attempt.
 
-(** every sequence of attempts and backend behaviours on one connection *)
+(** every sequence of attempts (any entry points, lines, default domains) and
+    backend behaviours on one connection *)
 Theorem c04_session_only_200 : forall l : list attempt,
-  (forall a, In a l -> creds_wf (a_creds a)) ->
   let s := run_session l in
   (authed s = false /\ who s = None)
-  \/ exists a u p, In a l /\ a_creds a = Creds u p /\ accepted (a_backend a) = true /\ a_init a = true
-       /\ authed s = true /\ who s = bound (run_attempt a).
+  \/ exists a u p, In a l /\ entry_creds false (a_entry a) = Creds u p
+       /\ accepted (a_backend a) = true /\ a_init a = true
+       /\ authed s = true /\ who s = bound (run_attempt false a).
 Proof. exact session_only_200. Qed.
 Print Assumptions c04_session_only_200.
 
 Theorem c04_session_bound_exact : forall l : list attempt,
-  (forall a, In a l -> creds_wf (a_creds a)) ->
-  (forall a u p, In a l -> a_creds a = Creds u p -> classify_cred (a_domain a) u p = None) ->
+  (forall a u p, In a l -> entry_creds false (a_entry a) = Creds u p -> classify_cred (a_domain a) u p = None) ->
   forall row, who (run_session l) = Some row ->
-  exists a u p, In a l /\ a_creds a = Creds u p /\ accepted (a_backend a) = true
+  exists a u p, In a l /\ entry_creds false (a_entry a) = Creds u p /\ accepted (a_backend a) = true
     /\ store_of (address_of (a_domain a) u) row
-    /\ exists body, sent (run_attempt a) = [body] /\ body_exact body (address_of (a_domain a) u) p.
+    /\ exists body, sent (run_attempt false a) = [body] /\ body_exact body (address_of (a_domain a) u) p.
 Proof. exact session_bound_exact. Qed.
 Print Assumptions c04_session_bound_exact.
 
